@@ -59,22 +59,27 @@ def main():
     # --- 2. the checks against the change
     results = {}
     if meta["applies_to_head"]:
-        rc, o = sh("git -C /repo status --short")
-        if o.strip():
-            print("!! /repo has uncommitted changes, refusing"); sys.exit(2)
-        sh("git -C /repo apply %s" % patch)
+        # the change is applied to a scratch worktree of /repo's HEAD (never to /repo itself while other work uses it); the
+        # checks are pointed at it with VERIF_REPO and get their own build directory; both are removed afterwards
+        wt = "/tmp/seedwt_" + sid
+        bd = "/tmp/seedbuild_" + sid
+        sh("git -C /repo worktree remove --force %s" % wt)
+        rc, o = sh("git -C /repo worktree add --detach %s HEAD" % wt)
+        sh("git -C %s apply %s" % (wt, patch))
+        meta["repo_head"] = sh("git -C /repo log --oneline -1")[1].strip()
         try:
             for p in props:
                 t0 = time.time()
                 try:
-                    rc, o = sh("./check %s --tier quick" % p, timeout=1800, cwd=ROOT)
+                    rc, o = sh("VERIF_REPO=%s VERIF_BUILD=%s ./check %s --tier quick" % (wt, bd, p), timeout=2400, cwd=ROOT)
                 except subprocess.TimeoutExpired:
                     rc, o = 124, "timeout"
                 viol = [l for l in o.splitlines() if l.startswith("VIOLATION")]
                 results[p] = {"exit": rc, "violations": [v[:400] for v in viol[:4]], "wall_s": round(time.time() - t0, 1),
                               "caught": rc == 1 and bool(viol), "tail": o.splitlines()[-3:] if rc not in (0, 1) else []}
         finally:
-            sh("git -C /repo checkout -- .")
+            sh("git -C /repo worktree remove --force %s" % wt)
+            shutil.rmtree(bd, ignore_errors=True)
     meta["checks"] = results
     shutil.copy(patch, os.path.join(out, "patch.diff"))
     if demo:
